@@ -55,6 +55,7 @@ type transSpec struct {
 	wraps        map[string]func(tail string) string     // printed call statement -> the Lean term around the rest (a translated callee)
 	stateTy      []string                                // Lean types of the tracked variables (needed for `for cond {}` loops, which become `let rec`)
 	mapDefault   map[string]string                       // tracked Go maps (by Lean name): the value read for an absent key
+	litTuple     bool                                    // a keyed composite literal `T{A: a, B: b}` is the tuple of its field values in source order
 	sliceDefault map[string]string                       // tracked Go slices (by Lean name) read and written by index: `s[i]` = `s.getD i d`, `s[i] = v` = `s.set i v`
 	litType      string                                  // Lean type of integer literals ("" = Nat)
 	loopFuel     string                                  // fuel of `for cond {}` loops (a Lean term over the tracked variables)
@@ -141,6 +142,17 @@ func (t *translator) expr(e ast.Expr) string {
 	case *ast.CompositeLit:
 		if goStr(x) == "struct{}{}" {
 			return "()"
+		}
+		if t.spec.litTuple && len(x.Elts) > 0 {
+			var vs []string
+			for _, el := range x.Elts {
+				kv, ok := el.(*ast.KeyValueExpr)
+				if !ok {
+					return t.fail("unsupported composite literal %s", goStr(e))
+				}
+				vs = append(vs, t.expr(kv.Value))
+			}
+			return "(" + strings.Join(vs, ", ") + ")"
 		}
 	case *ast.ParenExpr:
 		return "(" + t.expr(x.X) + ")"
@@ -764,6 +776,46 @@ func genTxn(repo, out string) {
 		fallOff:  func(st []string) string { return "(E.nil, ev)" },
 		panicVal: "(E.nil, ev)", skipCall: isHookOrLog,
 	})
+	// Txn.Commit, the statements that build the batch from the pending writes
+	{
+		sp := transSpec{
+			leanName: "commitBatch",
+			binders:  "{π : Type} (pkey : π → Key) (pval : π → List UInt8) (ptomb : π → Bool) (pendingWrites : List (Key × π)) (commitTs : Nat)",
+			retType:  "List ((Key × Nat) × List UInt8 × Bool × Nat)",
+			exprMap: map[string]string{"t.pendingWrites": "pendingWrites", "types.KeyWithTs(v.Key, commitTs)": "(pkey v, commitTs)", "v.Value": "(pval v)",
+				"v.Tombstone": "(ptomb v)", "int64(commitTs)": "commitTs"},
+			state: []string{"entries"}, stateLn: []string{"entries"}, stateTy: []string{"List ((Key × Nat) × List UInt8 × Bool × Nat)"},
+			mapDefault: map[string]string{"pendingWrites": "default"}, litTuple: true,
+			ret:      func(vals []string, st []string) string { return "entries" },
+			fallOff:  func(st []string) string { return "entries" },
+			panicVal: "entries", skipCall: isHookOrLog,
+		}
+		fd := need("Txn", "Commit")
+		d := ""
+		err := fmt.Errorf("Txn.Commit not found")
+		if fd != nil {
+			var sel []ast.Stmt
+			for _, st := range fd.Body.List {
+				if strings.HasPrefix(goStr(st), "entries := make(") {
+					sel = append(sel, st)
+				}
+				if r, ok := st.(*ast.RangeStmt); ok && goStr(r.X) == "t.pendingWrites" {
+					sel = append(sel, st)
+				}
+			}
+			err = fmt.Errorf("the batch-building statements of Txn.Commit were not found (entries := make(…); for … range t.pendingWrites)")
+			if len(sel) == 2 {
+				t := &translator{spec: sp}
+				body := t.stmts(sel, func() string { return "entries" }, "", "")
+				err = t.err
+				d = fmt.Sprintf("def %s %s : %s :=\n  let entries : %s := []\n  %s\n", sp.leanName, sp.binders, sp.retType, sp.stateTy[0], body)
+			}
+		}
+		if err != nil {
+			d = fmt.Sprintf("/-- UNTRANSLATABLE: %s -/\ndef commitBatch : Unit := ()\n", strings.ReplaceAll(err.Error(), "-/", "- /"))
+		}
+		sb.WriteString(d + "\n")
+	}
 	// DB.View / DB.Update
 	for _, nm := range []string{"View", "Update"} {
 		emit(need("DB", nm), transSpec{
